@@ -49,7 +49,7 @@ private partial def tyTxt (names : List String) : Ty → String
   | .eitherRef t => s!"(:er|{tyTxt names t})"
   | .refT t => s!"(:^|{tyTxt names t})"
   | .prim p => primTxt p
-  | .dictE id => s!"(:de|:{id})"
+  | .dictE k t => s!"(:de|{tyTxt names k}|{tyTxt names t})"
   | _ => "(:o|:unsupported)"
 private partial def fieldsTxt (names : List String) : Fields → String
   | .nil => ""
